@@ -11,10 +11,12 @@
 package main
 
 import (
+	"context"
 	"encoding/json"
 	"flag"
 	"fmt"
 	"os"
+	"os/exec"
 	"sort"
 	"time"
 )
@@ -29,9 +31,11 @@ type Finding struct {
 }
 
 type Suite struct {
-	Prop  string
-	Gen   func(c *Ctx)
-	Impl  func(req map[string]any) any
+	Prop string
+	Gen  func(c *Ctx)
+	Impl func(req map[string]any) any
+	// optional: implementation call that needs the oracle's answer (e.g. the specification encoding to decode)
+	ImplO func(req map[string]any, orc map[string]any) any
 	Judge func(c *Ctx, req map[string]any, impl any, orc map[string]any) []Finding
 	// optional: structured shrinking candidates for a failing request
 	Shrink func(req map[string]any) []map[string]any
@@ -101,6 +105,21 @@ func main() {
 		fmt.Fprintln(os.Stderr, "unknown property", *prop)
 		os.Exit(2)
 	}
+	if os.Getenv("VERIF_CHILD") == "1" {
+		// isolated single-case mode: request on stdin, canonical implementation result on stdout
+		var req map[string]any
+		d := json.NewDecoder(os.Stdin)
+		d.UseNumber()
+		if err := d.Decode(&req); err != nil {
+			os.Exit(2)
+		}
+		delete(req, "isolate")
+		out := runImpl(s, req)
+		b, _ := json.Marshal(map[string]any{"r": out})
+		os.Stdout.Write(b)
+		return
+	}
+	selfProp = *prop
 	start := time.Now()
 	ctx := &Ctx{Tier: *tier, Seed: *seed, R: NewRng(*seed), Tags: map[string]int{}, Ops: map[string]int{}, Notes: map[string]any{}}
 	if *replay != "" {
@@ -142,7 +161,7 @@ func main() {
 	seen := map[string]bool{}
 	perRegion := map[string]int{}
 	for i, req := range ctx.reqs {
-		impl := runImpl(s, req)
+		impl := runImplO(s, req, resps[i])
 		switch implKind(impl) {
 		case "ok":
 			res.Accepted++
@@ -219,7 +238,7 @@ func shrinkFinding(s *Suite, ctx *Ctx, orc *Oracle, f Finding) Finding {
 			if err != nil {
 				return cur
 			}
-			impl := runImpl(s, cand)
+			impl := runImplO(s, cand, rs[0])
 			fs := s.Judge(ctx, cand, impl, rs[0])
 			for _, nf := range fs {
 				if nf.Kind == cur.Kind && nf.Region == cur.Region {
@@ -272,6 +291,48 @@ func runImpl(s *Suite, req map[string]any) (out any) {
 		}
 	}()
 	return s.Impl(req)
+}
+
+var selfProp string
+
+// runIsolated runs one case in a child process (cases that may exhaust memory or crash the process).
+func runIsolated(req map[string]any) any {
+	exe, err := os.Executable()
+	if err != nil {
+		return "crash"
+	}
+	b, _ := json.Marshal(req)
+	ctx, cancel := context.WithTimeout(context.Background(), 60*time.Second)
+	defer cancel()
+	cmd := exec.CommandContext(ctx, exe, "-prop", selfProp)
+	cmd.Env = append(os.Environ(), "VERIF_CHILD=1", "GOMEMLIMIT=2GiB")
+	cmd.Stdin = bytesReader(b)
+	outb, err := cmd.Output()
+	if err != nil {
+		return "crash"
+	}
+	var m map[string]any
+	d := json.NewDecoder(bytesReader(outb))
+	d.UseNumber()
+	if d.Decode(&m) != nil {
+		return "crash"
+	}
+	return m["r"]
+}
+
+func runImplO(s *Suite, req map[string]any, orc map[string]any) (out any) {
+	if req["isolate"] == true && os.Getenv("VERIF_CHILD") != "1" {
+		return runIsolated(req)
+	}
+	if s.ImplO == nil {
+		return runImpl(s, req)
+	}
+	defer func() {
+		if r := recover(); r != nil {
+			out = "panic"
+		}
+	}()
+	return s.ImplO(req, orc)
 }
 
 func implKind(v any) string {
